@@ -12,16 +12,16 @@ CHECKS = {
    "DESIGN.md §3 C10"),
  "C11": ("model_checking",
    "the C10 deviation-bounded embedder exploration with a status-contract oracle evaluated at every run_n_steps return",
-   "At every run_n_steps return of every explored execution: the number of VM instructions executed by the call (independent counter hook) is <= the budget and equals steps_consumed; for task-free programs the consumed steps sum to the default run's instruction count; completion or a runtime error is reported when main ends and persists on further calls, an error is never reported as completion; final value, output and the arguments received by host functions of arity 0-3 equal the hand model and the host's return value is what the program observes.",
+   "At every run_n_steps return of every explored execution: the number of VM instructions executed by the call (independent counter hook) is <= the budget and equals steps_consumed; for task-free programs the consumed steps sum to the default run's instruction count; completion or a runtime error is reported when main ends and persists on further calls, an error is never reported as completion; final value, output and the arguments received by host functions of arity 0-3 (called by name, through variables, as a callback and from an array element) equal the hand model and the host's return value is what the program observes.",
    "Same bounds as C10; hand-computed expectations in corpus.rs are the reference model.",
    "DESIGN.md §3 C11"),
  "C09": ("model_checking",
    "multi-thread product BFS (round-robin mutator steps x collector micro-steps on every green thread's heap, quarantine on task teardown) against a FIFO/exactly-once/copy-at-write channel model",
-   "Sixteen producer/consumer programs covering scalar and heap payloads and every timing relation between write, read, task end, mutation after write and collection are first run without collection and compared with the channel model, then explored exhaustively over all interleavings of mutator steps with collector steps of every thread (1/2 cycles per thread) in quarantine mode; no reachable object (including through queues) may be reclaimed, every maximal path must give the model's outcome, and no state beyond the collection-disabled run's step count may be unfinished (a collector step never changes the mutator's course).",
+   "Twenty-four producer/consumer programs covering scalar and heap payloads, every timing relation between write, read, task end, mutation after write and collection, and several handles (tasks, the parent, a handle received over another channel) reading one channel in turn are first run without collection and compared with the channel model, then explored exhaustively over all interleavings of mutator steps with collector steps of every thread (1/2 cycles per thread) in quarantine mode; no reachable object (including through queues) may be reclaimed, every maximal path must give the model's outcome, and no state beyond the collection-disabled run's step count may be unfinished (a collector step never changes the mutator's course).",
    "Bounded programs and cycles; the scheduler is the real deterministic round-robin (budgets cannot reorder tasks), host-call delays are C10's job; hooks H3 trusted.",
    "DESIGN.md §3 C09"),
  "C07": ("model_checking",
-   "product BFS (mutator x collector micro-steps) with a precision monitor; exhaustive create/run/service/drop histories under a counting allocator; real-pacing allocation loops with a differential-in-n oracle",
+   "product BFS (mutator x collector micro-steps) with a precision monitor; exhaustive create/run/service/drop histories under a counting allocator; real-pacing allocation loops (one small object per iteration, scratch arrays, and bursts: a received message of hundreds of objects per instruction) with a differential-in-n oracle",
    "(a) In every explored schedule of the C06 product search, when a cycle finishes every object that was unreachable at its start has been reclaimed. (b) Allocation loops run under the real maybe_gc pacing keep a maximum heap that does not grow with the iteration count while completed cycles do. (c) Every history up to the bound of creating, running (1/50/all steps), servicing and dropping up to two runtimes over six programs (string constants, blocked tasks, running tasks at main's end, runtime error, pending host call, heap-heavy) returns the process's live heap bytes to the baseline once all runtimes are dropped.",
    "Bounds: listed programs, 2/3 cycles, histories of length <= 4/5, n up to 10^4/10^5; the differential bound of (b) is 1.25x + 64 bytes; the counting allocator and the H3 hooks are trusted.",
    "DESIGN.md §3 C07"),
